@@ -594,6 +594,41 @@ impl HttpServer {
         Ok(())
     }
 
+    /// Verification hook (read-only): for every open connection its descriptor, state
+    /// (0 = awaiting incoming, 1 = awaiting outgoing, 2 = closed), number of in-flight
+    /// responses, whether output is pending, and the connection digest.
+    #[cfg(micro_http_verif)]
+    pub fn verif_conn_states(&self) -> Vec<(i32, u8, u32, bool, [u64; 9])> {
+        let mut states: Vec<_> = self
+            .connections
+            .iter()
+            .map(|(fd, c)| {
+                (
+                    *fd,
+                    match c.state {
+                        ClientConnectionState::AwaitingIncoming => 0,
+                        ClientConnectionState::AwaitingOutgoing => 1,
+                        ClientConnectionState::Closed => 2,
+                    },
+                    c.in_flight_response_count,
+                    c.connection.pending_write(),
+                    c.connection.verif_digest(),
+                )
+            })
+            .collect();
+        states.sort();
+        states
+    }
+
+    /// Verification hook (read-only): descriptors of the listener and of the kill switch (-1 if none).
+    #[cfg(micro_http_verif)]
+    pub fn verif_fds(&self) -> (i32, i32) {
+        (
+            self.socket.as_raw_fd(),
+            self.kill_switch.as_ref().map_or(-1, |ks| ks.as_raw_fd()),
+        )
+    }
+
     /// Accepts a new incoming connection and adds it to the `epoll` notification structure.
     ///
     /// # Errors
